@@ -9,7 +9,7 @@ def topo_nontrivial(cmd, inp, impl, prev):
 
 TB = "Trusted: Lean kernel (axioms propext, Classical.choice, Quot.sound only, audited per theorem), the correspondence check (sampled), the harness printers and Lean driver runtime, the extractor for the regenerated tag table. "
 
-PROP = dict(
+PROP = dict(search_rounds=1, 
     family="c13", session_start={"topo.load"}, trivial=topo_nontrivial,
     n=dict(quick=220, thorough=4000),
     exhaustive=dict(quick=False, thorough=False),
